@@ -12,7 +12,7 @@ import random
 
 from .. import diff, nslapi
 from ..gen import layout as layout_gen
-from ..lang import (INT, FLOAT, Var, IntLit, Bin, Assign, Index, Call, Decl, ExprStmt, Block, If, Return, Func,
+from ..lang import (INT, FLOAT, Var, IntLit, FloatLit, expr_tokens, Bin, Assign, Index, Call, Decl, ExprStmt, Block, If, Return, Func,
                     Module, arr, mk_bin, natural, BINOPS, PREC, full_paren, module_tokens, join_tokens)
 from ..mon import vmobs
 from ..ref import sem
@@ -283,6 +283,72 @@ def literal_cases(R, obs, rng, ops, kind):
         R.count("literal_operand_cases")
 
 
+MIXED_VALUES = {"int": (7, 2, -3, 5), "float": (2.5, -1.5, 7.25, 0.5)}
+
+
+def mixed_type_cases(R, obs, rng, ops):
+    """`a op1 b op2 c` with int and float operands mixed: the conversions the operators insert must follow the declared
+    grouping too (an inner int-only group stays an int operation inside a float expression), at both optimisation settings"""
+    for kinds in itertools.product(("int", "float"), repeat=3):
+        if len(set(kinds)) == 1:
+            continue
+        operands = [Var(nm, INT if k == "int" else FLOAT) for nm, k in zip("abc", kinds)]
+        try:
+            tree = natural(list(ops), operands)
+        except ValueError:
+            continue    # (% with a float operand: not defined)
+        f = Func("f", [(v.ty, v.name) for v in operands], tree.ty, Block([Return(tree)]), True)
+        m = Module(funcs=[f])
+        inputs = []
+        for sh in range(4):
+            env = {v.name: MIXED_VALUES[k][(sh + j) % 4] for j, (v, k) in enumerate(zip(operands, kinds))}
+            inputs.append((env, {}))
+        case = "mixed:%s:%s" % ("".join(k[0] for k in kinds), " ".join(ops))
+        for opt in (False, True):
+            res = diff.check_program(R, obs, case, m, "f", inputs, "value:mixed-types:%s" % ("O1" if opt else "O0"), optimize=opt)
+            if res["runnable"] and res["bad"] == 0:
+                R.nontriv(res["source"], opt)
+        R.count("mixed_type_cases")
+
+
+def glued_sign_cases(R, obs, rng, ops, kind):
+    """`a op1 b -1` / `a -1 op2 c`: the lexer reads a sign directly in front of a digit as part of the literal, so today
+    these texts are syntax errors.  Whitespace must not change a grouping: *if* such a text is accepted, it has to mean what
+    the spaced text `a op1 b - 1` means."""
+    T = INT if kind == "int" else FLOAT
+    a, b = Var("a", T), Var("b", T)
+    one = "1" if kind == "int" else "1.0"
+    lit = IntLit(1) if kind == "int" else FloatLit(1.0)
+    inputs = [({"a": x, "b": y}, {}) for x, y in (((0, 2), (3, 1), (5, 5), (-2, 7)) if kind == "int" else ((0.5, 2.0), (3.0, 1.5), (5.0, 5.0), (-2.0, 7.5)))]
+    forms = []
+    for sign in ("-", "+"):
+        for op in set(ops):
+            try:
+                forms.append((natural([op, sign], [a, b, lit]), "a %s b %s%s" % (op, sign, one)))
+                forms.append((natural([sign, op], [a, lit, b]), "a %s%s %s b" % (sign, one, op)))
+                forms.append((natural([op, sign], [a, b, lit]), "a %s b%s%s" % (op, sign, one)))
+            except ValueError:
+                continue
+    for tree, text in forms:
+        f = Func("f", [(T, "a"), (T, "b")], tree.ty, Block([Return(tree)]), True)
+        m = Module(funcs=[f])
+        spaced = join_tokens(module_tokens(m))
+        toks = []
+        expr_tokens(tree, toks)
+        spaced_expr = join_tokens(toks).strip()
+        if spaced_expr not in spaced:
+            R.count("glued_sign_harness_skip")
+            continue
+        src = spaced.replace(spaced_expr, text)
+        R.count("glued_sign_texts")
+        res = diff.check_program(R, obs, "glued:%s:%s" % (kind, text), m, "f", inputs, "value:glued-sign", require_accept=False, source=src)
+        if not res["accepted"]:
+            R.count("glued_sign_rejected")
+        elif res["runnable"] and res["bad"] == 0:
+            R.count("glued_sign_accepted_and_agreeing")
+            R.nontriv(src)
+
+
 def _mech(ops, expected, got):
     """mechanism key: the precedence levels of the operators involved and which way it went"""
     lv = "-".join(str(PREC[o]) for o in ops)
@@ -323,6 +389,9 @@ def run_shard(tier, seed, shard, n, R):
         run_case(R, obs, rng, tier, ops, kind, nat, alts, ctxs, "plain/%d" % len(ops))
         if len(ops) == 2:
             literal_cases(R, obs, rng, ops, kind)
+            if kind == "int":
+                mixed_type_cases(R, obs, rng, ops)
+            glued_sign_cases(R, obs, rng, ops, kind)
         # 2. every parenthesisation: minimal parentheses force the shape
         for s in shapes:
             s_s = full_paren(s)
